@@ -10,15 +10,160 @@ Lemma vbind_ok {A B} (x : vres A) (f : A -> vres B) b :
   vbind x f = VOk b -> exists a, x = VOk a /\ f a = VOk b.
 Proof. destruct x as [a| |s]; cbn; intro H; try discriminate. exists a. split; [reflexivity|exact H]. Qed.
 
-Lemma vs_compare_refl a : vs_compare a a = Eq.
-Proof. induction a as [|x a IH]; cbn; [reflexivity|]. rewrite N.compare_refl. exact IH. Qed.
-
-Lemma vs_compare_eq a b : vs_compare a b = Eq -> a = b.
+(* ---------- the key test is byte-exact on data pushes ---------- *)
+Lemma push_case f lenlen r op0 ts :
+  match p_le lenlen r with
+  | None => None
+  | Some (n, r1) =>
+      if 0x80000000 <=? n then None
+      else match takeN n r1 with
+           | None => None
+           | Some (d, r2) => match vs_tokenize f r2 with Some ts => Some ((op0, Some d) :: ts) | None => None end
+           end
+  end = Some ts ->
+  exists lenb d1 r2 ts', r = lenb ++ d1 ++ r2 /\ vs_tokenize f r2 = Some ts' /\
+                         ts = (op0, Some d1) :: ts' /\ length lenb = lenlen.
 Proof.
-  revert b; induction a as [|x a IH]; intros [|y b]; cbn; intro H; try discriminate; [reflexivity|].
-  destruct (N.compare (n8 x) (n8 y)) eqn:E; try discriminate.
-  apply N.compare_eq in E. apply n8_inj in E. f_equal; [exact E | apply IH; exact H].
+  destruct (p_le lenlen r) as [[n r1]|] eqn:Ep; [|discriminate].
+  destruct (0x80000000 <=? n); [discriminate|].
+  destruct (takeN n r1) as [[d1 r2]|] eqn:Et; [|discriminate].
+  destruct (vs_tokenize f r2) as [ts'|] eqn:Er; [|discriminate].
+  intro H; injection H as <-.
+  apply p_le_inv in Ep as [-> _]. apply takeN_inv in Et as [-> _].
+  exists (le_enc lenlen n), d1, r2, ts'. repeat split; try assumption. apply le_enc_length.
 Qed.
+
+(* every data push of a tokenized script is a contiguous part of the script, after at least its opcode byte *)
+Lemma push_in_script fuel : forall s ts op d,
+  vs_tokenize fuel s = Some ts -> In (op, Some d) ts ->
+  exists pre post, s = pre ++ d ++ post /\ pre <> [].
+Proof.
+  induction fuel as [|f IH]; intros s ts op d H Hin; [discriminate|].
+  cbn [vs_tokenize] in H. destruct s as [|b r]; [injection H as <-; destruct Hin|].
+  cbv zeta in H.
+  destruct ((1 <=? n8 b) && (n8 b <=? 75)) eqn:E1.
+  - destruct (takeN (n8 b) r) as [[d1 r2]|] eqn:Et; [|discriminate].
+    destruct (vs_tokenize f r2) as [ts'|] eqn:Er; [|discriminate]. injection H as <-.
+    apply takeN_inv in Et as [-> _].
+    destruct Hin as [Hq|Hin].
+    + injection Hq as _ <-. exists [b], r2. split; [reflexivity|discriminate].
+    + destruct (IH _ _ _ _ Er Hin) as (pre & post & -> & _). exists (b :: d1 ++ pre), post.
+      split; [|discriminate]. cbn. rewrite <- app_assoc. reflexivity.
+  - assert (Hpush : forall lenlen,
+      match p_le lenlen r with
+      | None => None
+      | Some (n, r1) =>
+          if 0x80000000 <=? n then None
+          else match takeN n r1 with
+               | None => None
+               | Some (d, r2) => match vs_tokenize f r2 with Some ts => Some ((n8 b, Some d) :: ts) | None => None end
+               end
+      end = Some ts -> exists pre post, b :: r = pre ++ d ++ post /\ pre <> []).
+    { intros lenlen Hp. apply push_case in Hp as (lenb & d1 & r2 & ts' & -> & Er & -> & _).
+      destruct Hin as [Hq|Hin].
+      - injection Hq as _ <-. exists (b :: lenb), r2. split; [reflexivity|discriminate].
+      - destruct (IH _ _ _ _ Er Hin) as (pre & post & -> & _). exists (b :: lenb ++ d1 ++ pre), post.
+        split; [|discriminate]. cbn. rewrite <- !app_assoc. reflexivity. }
+    destruct (n8 b =? 76); [exact (Hpush _ H)|].
+    destruct (n8 b =? 77); [exact (Hpush _ H)|].
+    destruct (n8 b =? 78); [exact (Hpush _ H)|].
+    destruct (vs_tokenize f r) as [ts'|] eqn:Er; [|discriminate]. injection H as <-.
+    destruct Hin as [Hq|Hin]; [discriminate|].
+    destruct (IH _ _ _ _ Er Hin) as (pre & post & -> & _). exists (b :: pre), post. split; [reflexivity|discriminate].
+Qed.
+
+Lemma push_shorter fuel s ts op d :
+  vs_tokenize fuel s = Some ts -> In (op, Some d) ts -> (length d < length s)%nat.
+Proof.
+  intros H Hin. destruct (push_in_script _ _ _ _ _ H Hin) as (pre & post & -> & Hne).
+  rewrite !app_length. destruct pre; [congruence|]. cbn. lia.
+Qed.
+
+Lemma tokenize_op0 f b r ts :
+  n8 b = 0 -> vs_tokenize (S f) (b :: r) = Some ts ->
+  exists ts', vs_tokenize f r = Some ts' /\ ts = (n8 b, None) :: ts'.
+Proof.
+  intros Hb H. cbn [vs_tokenize] in H. cbv zeta in H. rewrite Hb in H.
+  change ((1 <=? 0) && (0 <=? 75)) with false in H.
+  change (0 =? 76) with false in H. change (0 =? 77) with false in H. change (0 =? 78) with false in H.
+  cbv iota in H. destruct (vs_tokenize f r) as [ts'|]; [|discriminate].
+  injection H as <-. exists ts'. rewrite Hb. split; reflexivity.
+Qed.
+
+(* the first token is the only one that can carry a push as long as the rest of the script *)
+Lemma tokenize_step_bound f b r ts op d :
+  vs_tokenize (S f) (b :: r) = Some ts -> In (op, Some d) ts ->
+  (length d = length r /\ n8 b = N.of_nat (length d) /\ (1 <=? n8 b) && (n8 b <=? 75) = true) \/
+  (length d < length r)%nat.
+Proof.
+  intros H Hin. cbn [vs_tokenize] in H. cbv zeta in H.
+  destruct ((1 <=? n8 b) && (n8 b <=? 75)) eqn:E1.
+  - destruct (takeN (n8 b) r) as [[d1 r3]|] eqn:Et; [|discriminate].
+    destruct (vs_tokenize f r3) as [ts'|] eqn:Er; [|discriminate]. injection H as <-.
+    apply takeN_inv in Et as [-> Hn]. rewrite app_length.
+    destruct Hin as [Hq|Hin].
+    + injection Hq as _ <-. destruct r3 as [|x r3]; [left; cbn; split; [lia|split; [lia|reflexivity]] | right; cbn; lia].
+    + pose proof (push_shorter _ _ _ _ _ Er Hin). right. lia.
+  - right.
+    assert (Hpush : forall lenlen, lenlen <> 0%nat ->
+      match p_le lenlen r with
+      | None => None
+      | Some (n, r1) =>
+          if 0x80000000 <=? n then None
+          else match takeN n r1 with
+               | None => None
+               | Some (d, r2) => match vs_tokenize f r2 with Some ts => Some ((n8 b, Some d) :: ts) | None => None end
+               end
+      end = Some ts -> (length d < length r)%nat).
+    { intros lenlen Hll Hp. apply push_case in Hp as (lenb & d1 & r3 & ts' & -> & Er & -> & Hlb).
+      rewrite !app_length. destruct Hin as [Hq|Hin].
+      - injection Hq as _ <-. lia.
+      - pose proof (push_shorter _ _ _ _ _ Er Hin). lia. }
+    destruct (n8 b =? 76); [apply (Hpush 1%nat); [lia|exact H]|].
+    destruct (n8 b =? 77); [apply (Hpush 2%nat); [lia|exact H]|].
+    destruct (n8 b =? 78); [apply (Hpush 4%nat); [lia|exact H]|].
+    destruct (vs_tokenize f r) as [ts'|] eqn:Er; [|discriminate]. injection H as <-.
+    destruct Hin as [Hq|Hin]; [discriminate|].
+    exact (push_shorter _ _ _ _ _ Er Hin).
+Qed.
+
+Section KeyTest.
+  Variable hash160 : bytes -> bytes.
+
+  (* the key test holds iff some data push IS the compressed key or the HASH160 of the key bytes *)
+  Theorem key_test_exact ck pub ts :
+    vs_key_in_pushes hash160 ck pub ts = true <->
+    exists op d, In (op, Some d) ts /\ (d = ck \/ d = hash160 pub).
+  Proof.
+    unfold vs_key_in_pushes. rewrite existsb_exists. split.
+    - intros [[op od] [Hin Ht]]. cbn [snd] in Ht. destruct od as [d|]; [|discriminate].
+      exists op, d. split; [exact Hin|].
+      apply orb_true_iff in Ht as [Ht|Ht]; apply bytes_eqb_eq in Ht; [left|right]; exact Ht.
+    - intros (op & d & Hin & Hd). exists (op, Some d). split; [exact Hin|]. cbn [snd].
+      apply orb_true_iff. destruct Hd as [->| ->]; [left|right]; apply bytes_eqb_eq; reflexivity.
+  Qed.
+
+  (* hence the key (or its hash) occurs byte for byte in the script being satisfied *)
+  Theorem key_test_bytewise script ts ck pub :
+    vs_script_tokens script = Some ts -> vs_key_in_pushes hash160 ck pub ts = true ->
+    exists k pre post, (k = ck \/ k = hash160 pub) /\ script = pre ++ k ++ post.
+  Proof.
+    intros Ht Hk. apply key_test_exact in Hk as (op & d & Hin & Hd).
+    destruct (push_in_script _ _ _ _ _ Ht Hin) as (pre & post & Hs & _).
+    exists d, pre, post. split; assumption.
+  Qed.
+
+  (* a 22-byte OP_0 script with a push of 20 or more bytes is OP_0 OP_DATA_20 <20 bytes> *)
+  Lemma wpkh_second_byte a b r2 ts op d :
+    n8 a = 0 -> length r2 = 20%nat -> vs_script_tokens (a :: b :: r2) = Some ts ->
+    In (op, Some d) ts -> (20 <= length d)%nat -> n8 b = 0x14.
+  Proof.
+    intros Ha Hl Ht Hin Hd. unfold vs_script_tokens in Ht. cbn [length] in Ht.
+    apply tokenize_op0 in Ht as (ts0 & Ht0 & ->); [|exact Ha].
+    destruct Hin as [Hq|Hin]; [discriminate|].
+    destruct (tokenize_step_bound _ _ _ _ _ _ Ht0 Hin) as [(H1 & H2 & _)|H1]; lia.
+  Qed.
+End KeyTest.
 
 (* ---------- specification side ---------- *)
 Section Spec.
@@ -117,7 +262,7 @@ Section Spec.
       s = Some (mk_vsig (Some pub) sg) /\ parse_pk pub = Some ck /\ rev sg = last :: rder /\
       digest_of_spent v p i inp (n8 last) = Some (d, sat) /\
       der_ok (rev rder) = true /\ verify ck d (rev rder) = true /\
-      vs_disasm sat = Some asm /\ vs_key_in_asm hash160 ck pub asm = true.
+      vs_script_tokens sat = Some asm /\ vs_key_in_pushes hash160 ck pub asm = true.
 
   (* a supplied previous transaction hashes to the outpoint txid *)
   Definition prev_tx_matches (v : vver) (p : vpacket) (i : nat) (inp : vinput) : Prop :=
@@ -139,7 +284,7 @@ Section Spec.
       s = Some (mk_vsig (Some pub) sg) /\ parse_pk pub = Some ck /\ rev sg = last :: rder /\
       HS v p i inp (n8 last) = VOk (d, scr) /\
       der_ok (rev rder) = true /\ verify ck d (rev rder) = true /\
-      vs_disasm scr = Some asm /\ vs_key_in_asm hash160 ck pub asm = true.
+      vs_script_tokens scr = Some asm /\ vs_key_in_pushes hash160 ck pub asm = true.
 
   Lemma validate_sig_true v p i inp s :
     VSig v p i inp s = VOk true -> sig_checked v p i inp s.
@@ -153,9 +298,9 @@ Section Spec.
     apply vbind_ok in H as [ins [Hv H]].
     unfold vs_verify_script in Hv.
     destruct (parse_pk pub) as [ck|] eqn:Epk; [|discriminate].
-    destruct (vs_disasm scr) as [asm|] eqn:Ed; [|discriminate].
+    destruct (vs_script_tokens scr) as [asm|] eqn:Ed; [|discriminate].
     injection Hv as Hv. subst ins.
-    destruct (vs_key_in_asm hash160 ck pub asm) eqn:Ek; cbn [negb] in H; [|discriminate].
+    destruct (vs_key_in_pushes hash160 ck pub asm) eqn:Ek; cbn [negb] in H; [|discriminate].
     destruct (der_ok (rev rder)) eqn:Eder; cbn [negb] in H; [|discriminate].
     injection H as H.
     exists pub, sg, ck, last, rder, d, scr, asm. repeat split; auto.
@@ -274,31 +419,35 @@ Section Spec.
       destruct (p2sh_prog (o_script o)); reflexivity.
   Qed.
 
-  Lemma type_cases script ty :
-    vs_script_type script = VOk ty -> wf_program script ->
-    (ty = StP2WPKH /\ p2wpkh_prog script = Some (skipn 2 script)) \/
-    (ty = StP2WSH /\ p2wpkh_prog script = None) \/
-    (ty <> StP2WPKH /\ ty <> StP2WSH /\ p2wpkh_prog script = None /\ p2wsh_prog script = None).
+  Lemma type_cases script :
+    wf_program script ->
+    (vs_script_type script = StP2WPKH /\ p2wpkh_prog script = Some (skipn 2 script)) \/
+    (vs_script_type script = StP2WSH /\ p2wpkh_prog script = None) \/
+    (vs_script_type script <> StP2WPKH /\ vs_script_type script <> StP2WSH /\
+     p2wpkh_prog script = None /\ p2wsh_prog script = None).
   Proof.
-    unfold vs_script_type, wf_program. destruct script as [|a r]; [discriminate|].
+    unfold vs_script_type, wf_program. destruct script as [|a r].
+    { intros _. right; right. repeat split; discriminate. }
     destruct (n8 a =? 0) eqn:Ea.
-    - destruct r as [|b r2]; [discriminate|].
-      intros H Hwf. assert (Ha : n8 a = 0) by lia. specialize (Hwf Ha).
-      unfold p2wpkh_prog, vs_p2wsh_prog in *. rewrite Ea in *. cbn [andb] in *.
-      destruct (length r2 =? 20)%nat eqn:E20.
-      + injection H as <-. left. split; [reflexivity|].
-        destruct (n8 b =? 0x14) eqn:Eb; cbn [andb] in *; [reflexivity|].
-        exfalso. destruct Hwf as [Hw|Hw]; [congruence|].
-        assert (E32 : (length r2 =? 32)%nat = false) by lia. rewrite E32, andb_false_r in Hw. congruence.
-      + injection H as <-. right; left. split; [reflexivity|].
-        rewrite andb_false_r. reflexivity.
-    - intros H _. right; right.
+    - intros Hwf. assert (Ha : n8 a = 0) by lia. specialize (Hwf Ha).
+      destruct r as [|b r2].
+      + right; left. split; reflexivity.
+      + unfold p2wpkh_prog, vs_p2wsh_prog in *. rewrite Ea in *. cbn [andb] in *.
+        cbn [length]. destruct (Nat.eqb_spec (S (S (length r2))) 22) as [E22|E22].
+        * left. split; [reflexivity|].
+          assert (E20 : (length r2 =? 20)%nat = true) by lia. rewrite E20 in *.
+          destruct (n8 b =? 0x14) eqn:Eb; cbn [andb] in *; [reflexivity|].
+          exfalso. destruct Hwf as [Hw|Hw]; [congruence|].
+          assert (E32 : (length r2 =? 32)%nat = false) by lia. rewrite E32, andb_false_r in Hw. congruence.
+        * right; left. split; [reflexivity|].
+          assert (E20 : (length r2 =? 20)%nat = false) by lia. rewrite E20, andb_false_r. reflexivity.
+    - intros _. right; right.
       assert (Hp : p2wpkh_prog (a :: r) = None /\ p2wsh_prog (a :: r) = None).
       { unfold p2wpkh_prog, vs_p2wsh_prog. destruct r as [|b r2]; [split; reflexivity|]. rewrite Ea. cbn [andb]. split; reflexivity. }
       destruct Hp as [Hp1 Hp2].
-      destruct (n8 a =? 0x51); [injection H as <-; repeat split; try discriminate; assumption|].
-      destruct (n8 a =? 0xa9); [injection H as <-; repeat split; try discriminate; assumption|].
-      destruct (n8 a =? 0x76); injection H as <-; repeat split; try discriminate; assumption.
+      destruct (n8 a =? 0x51); [repeat split; try discriminate; assumption|].
+      destruct (n8 a =? 0xa9); [repeat split; try discriminate; assumption|].
+      destruct (n8 a =? 0x76); repeat split; try discriminate; assumption.
   Qed.
 
   Lemma is_witness_of_spec ws script :
@@ -333,8 +482,7 @@ Section Spec.
       specialize (Hwf o eq_refl).
       apply vbind_ok in H as [script [Hpick H]].
       destruct (spec_select_picked inp o script Hpick) as [Hus ->]. rewrite <- Hus in Hwf.
-      apply vbind_ok in H as [ty [Hty H]].
-      destruct (type_cases _ _ Hty Hwf) as [[-> Hp]|[[-> Hp1]|[Hn1 [Hn2 [Hp1 Hp2]]]]].
+      destruct (type_cases _ Hwf) as [[Ety Hp]|[[Ety Hp1]|[Hn1 [Hn2 [Hp1 Hp2]]]]]; try rewrite Ety in H.
       + apply vbind_ok in H as [d0 [Hd H]]. injection H as <- <-.
         apply digest_v0_ok in Hd. subst d0. unfold witness_sel. rewrite Hp. reflexivity.
       + destruct (svi_witscript inp) as [ws|] eqn:Ews; [|discriminate].
@@ -344,13 +492,12 @@ Section Spec.
         apply digest_v0_ok in Hd. subst d0.
         unfold witness_sel. rewrite Hp1, Hp2, Ews. cbn [vs_opt]. rewrite Hsha. reflexivity.
       + unfold witness_sel. rewrite Hp1, Hp2.
-        destruct ty; try congruence; injection H as <- <-; reflexivity.
+        destruct (vs_script_type script); try congruence; injection H as <- <-; reflexivity.
     - destruct (svi_wit inp) as [o|]; [|discriminate].
       specialize (Hwf o eq_refl).
       apply vbind_ok in H as [script [Hpick H]].
       destruct (spec_select_picked inp o script Hpick) as [Hus ->]. rewrite <- Hus in Hwf.
-      apply vbind_ok in H as [ty [Hty H]].
-      destruct (type_cases _ _ Hty Hwf) as [[-> Hp]|[[-> Hp1]|[Hn1 [Hn2 [Hp1 Hp2]]]]].
+      destruct (type_cases _ Hwf) as [[Ety Hp]|[[Ety Hp1]|[Hn1 [Hn2 [Hp1 Hp2]]]]]; try rewrite Ety in H.
       + apply vbind_ok in H as [d0 [Hd H]]. injection H as <- <-.
         apply digest_v0_ok in Hd. subst d0. unfold witness_sel. rewrite Hp. reflexivity.
       + destruct (vs_is_witness_of (vs_opt (svi_witscript inp)) script) eqn:Eis; cbn [negb] in H; [|discriminate].
@@ -358,7 +505,7 @@ Section Spec.
         apply vbind_ok in H as [d0 [Hd H]]. injection H as <- <-.
         apply digest_v0_ok in Hd. subst d0.
         unfold witness_sel. rewrite Hp1, Hp2, Hsha. reflexivity.
-      + destruct ty; try congruence; discriminate.
+      + destruct (vs_script_type script); try congruence; discriminate.
   Qed.
 
   (* PARTIAL (valid_only_if_partial): the full statement for every packet in which the script
@@ -381,6 +528,90 @@ Section Spec.
     destruct (Hs s Hin) as (pub & sg & ck & last & rder & d & scr & asm & E1 & E2 & E3 & E4 & E5 & E6 & E7 & E8).
     exists pub, sg, ck, last, rder, d, scr, asm. repeat split; try assumption.
     apply select_agrees; assumption.
+  Qed.
+
+  (* ---------- the full statement, from the sizes of keys and hashes ---------- *)
+  Lemma hs_inv v p i inp ht d scr :
+    HS v p i inp ht = VOk (d, scr) ->
+    exists o, spent_output v p i inp = Some o /\
+      let script := used_script inp o in
+      (vs_script_type script = StP2WPKH /\ scr = script) \/
+      (vs_script_type script = StP2WSH /\ vs_is_witness_of scr script = true) \/
+      (vs_script_type script <> StP2WPKH /\ vs_script_type script <> StP2WSH).
+  Proof.
+    unfold vs_hash_and_script, spent_output. intro H.
+    destruct (svi_nonwit inp) as [prev|].
+    - apply vbind_ok in H as [[h idx] [Ho H]]. cbn [fst snd] in H.
+      apply outpoint_spec in Ho. rewrite Ho.
+      destruct (negb _); [discriminate|].
+      destruct (lenL (t_outs prev) <=? idx) eqn:El; [discriminate|].
+      assert (El2 : (idx <? lenL (t_outs prev)) = true) by lia. rewrite El2.
+      destruct (nth_error (t_outs prev) (N.to_nat idx)) as [o|]; [|discriminate].
+      exists o. split; [reflexivity|]. cbv zeta.
+      apply vbind_ok in H as [script [Hpick H]].
+      rewrite <- (proj1 (spec_select_picked inp o script Hpick)).
+      destruct (vs_script_type script) eqn:Ety.
+      + left. apply vbind_ok in H as [d0 [_ H]]. injection H as _ <-. split; reflexivity.
+      + right; left. destruct (svi_witscript inp) as [ws|]; [|discriminate].
+        destruct (vs_is_witness_of ws script) eqn:Eis; cbn [negb] in H; [|discriminate].
+        apply vbind_ok in H as [d0 [_ H]]. injection H as _ <-. split; [reflexivity|exact Eis].
+      + right; right. split; discriminate.
+      + right; right. split; discriminate.
+      + right; right. split; discriminate.
+      + right; right. split; discriminate.
+    - destruct (svi_wit inp) as [o|]; [|discriminate].
+      exists o. split; [reflexivity|]. cbv zeta.
+      apply vbind_ok in H as [script [Hpick H]].
+      rewrite <- (proj1 (spec_select_picked inp o script Hpick)).
+      destruct (vs_script_type script) eqn:Ety; try discriminate.
+      + left. apply vbind_ok in H as [d0 [_ H]]. injection H as _ <-. split; reflexivity.
+      + right; left.
+        destruct (vs_is_witness_of (vs_opt (svi_witscript inp)) script) eqn:Eis; cbn [negb] in H; [|discriminate].
+        apply vbind_ok in H as [d0 [_ H]]. injection H as _ <-. split; [reflexivity|exact Eis].
+  Qed.
+
+  (* a script that passed the key test with a 33-byte key / 20-byte hash is a well-formed program *)
+  Lemma checked_wf v p i inp ht d scr ts ck pub :
+    HS v p i inp ht = VOk (d, scr) ->
+    vs_script_tokens scr = Some ts -> vs_key_in_pushes hash160 ck pub ts = true ->
+    length ck = 33%nat -> length (hash160 pub) = 20%nat ->
+    forall o, spent_output v p i inp = Some o -> wf_program (used_script inp o).
+  Proof.
+    intros H Ht Hk Hck Hh o Ho.
+    destruct (hs_inv _ _ _ _ _ _ _ H) as (o' & Ho' & Hc). rewrite Ho in Ho'. injection Ho' as <-.
+    cbv zeta in Hc. unfold wf_program.
+    destruct (used_script inp o) as [|a r] eqn:Eus; [exact I|]. intro Ha.
+    destruct Hc as [[Ety ->]|[[Ety Hw]|[Hn1 Hn2]]].
+    - left. unfold vs_script_type in Ety. rewrite Ha in Ety. cbn [N.eqb] in Ety.
+      destruct (Nat.eqb_spec (length (a :: r)) 22) as [E22|E22]; [|discriminate].
+      destruct r as [|b r2]; [discriminate|]. cbn [length] in E22.
+      apply key_test_exact in Hk as (op & d0 & Hin & Hd).
+      assert (Hb : n8 b = 0x14).
+      { apply (wpkh_second_byte hash160 a b r2 ts op d0 Ha); [lia | exact Ht | exact Hin |].
+        destruct Hd as [->| ->]; lia. }
+      unfold p2wpkh_prog. rewrite Ha, Hb. cbn [N.eqb Pos.eqb andb].
+      assert (E20 : (length r2 =? 20)%nat = true) by lia. rewrite E20. discriminate.
+    - right. unfold vs_is_witness_of in Hw. destruct (p2wsh_prog (a :: r)); [discriminate|discriminate].
+    - exfalso. unfold vs_script_type in Hn1, Hn2. rewrite Ha in Hn1, Hn2. cbn [N.eqb] in Hn1, Hn2.
+      destruct (length (a :: r) =? 22)%nat; congruence.
+  Qed.
+
+  (* FULL (valid_only_if): with the sizes of the two byte strings the key test compares
+     (33-byte compressed keys, 20-byte HASH160) as the only hypotheses, a valid verdict gives
+     every conjunct of the statement, for every packet, v0 and v2. *)
+  Theorem valid_only_if :
+    (forall pub ck, parse_pk pub = Some ck -> length ck = 33%nat) ->
+    (forall b, length (hash160 b) = 20%nat) ->
+    valid_only_if_statement.
+  Proof.
+    intros Hpk Hh v p i H.
+    apply valid_only_if_checked in H as [inp [Hn [Hne [Hs Hp]]]].
+    exists inp. split; [exact Hn|]. split; [exact Hne|]. split; [|exact Hp].
+    intros s Hin.
+    destruct (Hs s Hin) as (pub & sg & ck & last & rder & d & scr & ts & E1 & E2 & E3 & E4 & E5 & E6 & E7 & E8).
+    exists pub, sg, ck, last, rder, d, scr, ts. repeat split; try assumption.
+    apply select_agrees; [|exact E4].
+    eapply checked_wf; try eassumption; [eapply Hpk; exact E2 | apply Hh].
   Qed.
 
   (* ---------- ideal signatures: corruptions are rejected ---------- *)
@@ -438,35 +669,11 @@ Section Spec.
 
   (* ---------- panics ---------- *)
   (* what the PSET parsers guarantee about the fields read here: one packet input per
-     transaction input, partial signatures that are present and carry a parsable key *)
+     transaction input (v2 builds its transaction from the inputs), partial signatures that
+     are present *)
   Definition accepted (p : vpacket) : Prop :=
     length (t_ins (svp_tx p)) = length (svp_ins p) /\
-    forall inp, In inp (svp_ins p) -> forall s, In s (svi_sigs inp) ->
-      exists pub sg, s = Some (mk_vsig (Some pub) sg) /\ parse_pk pub <> None.
-
-  (* FULL STATEMENT (no_panic_on_accepted_packets); refuted below *)
-  Definition no_panic_statement : Prop :=
-    forall v p i, accepted p -> (i < length (svp_ins p))%nat -> forall site, VI v p i <> VPanic site.
-
-  Definition script_ok (s : bytes) : Prop := s <> [] /\ (forall a, s = [a] -> n8 a <> 0).
-
-  (* the remaining unchecked expressions are in address.GetScriptType: the classified script
-     (redeem script if present, else the spent script) must be non-empty and not the single
-     byte OP_0 *)
-  Definition panic_guards (v : vver) (p : vpacket) (i : nat) (inp : vinput) : Prop :=
-    forall o, spent_output v p i inp = Some o -> script_ok (used_script inp o).
-
-  Lemma script_type_total s : script_ok s -> exists ty, vs_script_type s = VOk ty.
-  Proof.
-    intros [Hne H1]. unfold vs_script_type. destruct s as [|a r]; [congruence|].
-    destruct (n8 a =? 0) eqn:Ea.
-    - destruct r as [|b r2].
-      + exfalso. apply (H1 a eq_refl). lia.
-      + destruct (length r2 =? 20)%nat; eexists; reflexivity.
-    - destruct (n8 a =? 0x51); [eexists; reflexivity|].
-      destruct (n8 a =? 0xa9); [eexists; reflexivity|].
-      destruct (n8 a =? 0x76); eexists; reflexivity.
-  Qed.
+    forall inp, In inp (svp_ins p) -> forall s, In s (svi_sigs inp) -> s <> None.
 
   Lemma digest_v0_total p i script amount ht :
     (i < length (t_ins (svp_tx p)))%nat -> exists d, vs_digest_v0 digest p i script amount ht = VOk d.
@@ -474,45 +681,33 @@ Section Spec.
     intro H. unfold vs_digest_v0. destruct (Nat.ltb_spec i (length (t_ins (svp_tx p)))); [eexists; reflexivity|lia].
   Qed.
 
-  Lemma pick_script_used inp o script :
-    vs_pick_script hash160 inp (o_script o) = VOk script -> script = used_script inp o.
-  Proof. intro H. exact (proj1 (spec_select_picked inp o script H)). Qed.
+  Lemma pick_script_no_panic inp spent st : vs_pick_script hash160 inp spent <> VPanic st.
+  Proof. unfold vs_pick_script. destruct (svi_redeem inp); [destruct (vs_is_redeem_of _ _ _)|]; discriminate. Qed.
 
   Lemma hash_and_script_no_panic v p i inp ht :
-    (i < length (t_ins (svp_tx p)))%nat -> panic_guards v p i inp ->
-    forall site, HS v p i inp ht <> VPanic site.
+    (i < length (t_ins (svp_tx p)))%nat -> forall site, HS v p i inp ht <> VPanic site.
   Proof.
-    intros Hi Hg site. unfold vs_hash_and_script, panic_guards, spent_output in *.
+    intros Hi site. unfold vs_hash_and_script.
     destruct (svi_nonwit inp) as [prev|].
-    - assert (Ho : exists h idx, vs_outpoint v p i inp = VOk (h, idx) /\ outpoint_of v p i inp = Some (h, idx)).
-      { unfold vs_outpoint, outpoint_of. destruct v.
-        - destruct (nth_error (t_ins (svp_tx p)) i) as [ti|] eqn:E.
-          + exists (in_hash ti), (in_index ti). split; reflexivity.
-          + apply nth_error_None in E. lia.
-        - eexists; eexists; split; reflexivity. }
-      destruct Ho as (h & idx & Ho1 & Ho2). rewrite Ho1, Ho2 in *. cbn [vbind fst snd].
-      destruct (negb (vs_prev_id_ok h (txid prev))); [discriminate|].
-      destruct (N.leb_spec (lenL (t_outs prev)) idx) as [Hle|Hlt]; [discriminate|].
-      assert (El2 : (idx <? lenL (t_outs prev)) = true) by lia. rewrite El2 in Hg.
-      destruct (nth_error (t_outs prev) (N.to_nat idx)) as [o|]; [|discriminate].
-      specialize (Hg o eq_refl).
+    - assert (Ho : exists op, vs_outpoint v p i inp = VOk op).
+      { unfold vs_outpoint. destruct v; [|eexists; reflexivity].
+        destruct (nth_error (t_ins (svp_tx p)) i) eqn:E; [eexists; reflexivity|].
+        apply nth_error_None in E. lia. }
+      destruct Ho as [op Ho]. rewrite Ho. cbn [vbind].
+      destruct (negb _); [discriminate|]. destruct (_ <=? _); [discriminate|].
+      destruct (nth_error _ _) as [o|]; [|discriminate].
       destruct (vs_pick_script hash160 inp (o_script o)) as [script| |st] eqn:Epick; cbn [vbind]; try discriminate.
-      2:{ unfold vs_pick_script in Epick. destruct (svi_redeem inp); [destruct (vs_is_redeem_of _ _ _)|]; discriminate. }
-      rewrite <- (pick_script_used _ _ _ Epick) in Hg.
-      destruct (script_type_total _ Hg) as [ty Hty]. rewrite Hty. cbn [vbind].
-      destruct ty; try discriminate.
+      2:{ exfalso. exact (pick_script_no_panic _ _ _ Epick). }
+      destruct (vs_script_type script); try discriminate.
       + destruct (digest_v0_total p i (vs_p2pkh_code (skipn 2 script)) (o_value o) ht Hi) as [d Hd].
         rewrite Hd. discriminate.
       + destruct (svi_witscript inp) as [ws|]; [|discriminate].
         destruct (negb _); [discriminate|].
         destruct (digest_v0_total p i ws (o_value o) ht Hi) as [d Hd]. rewrite Hd. discriminate.
     - destruct (svi_wit inp) as [w|]; [|discriminate].
-      specialize (Hg w eq_refl).
       destruct (vs_pick_script hash160 inp (o_script w)) as [script| |st] eqn:Epick; cbn [vbind]; try discriminate.
-      2:{ unfold vs_pick_script in Epick. destruct (svi_redeem inp); [destruct (vs_is_redeem_of _ _ _)|]; discriminate. }
-      rewrite <- (pick_script_used _ _ _ Epick) in Hg.
-      destruct (script_type_total _ Hg) as [ty Hty]. rewrite Hty. cbn [vbind].
-      destruct ty; try discriminate.
+      2:{ exfalso. exact (pick_script_no_panic _ _ _ Epick). }
+      destruct (vs_script_type script); try discriminate.
       + destruct (digest_v0_total p i (vs_p2pkh_code (skipn 2 script)) (o_value w) ht Hi) as [d Hd].
         rewrite Hd. discriminate.
       + destruct (negb _); [discriminate|].
@@ -521,18 +716,17 @@ Section Spec.
   Qed.
 
   Lemma validate_sig_no_panic v p i inp s :
-    (i < length (t_ins (svp_tx p)))%nat -> panic_guards v p i inp ->
-    (exists pub sg, s = Some (mk_vsig (Some pub) sg) /\ parse_pk pub <> None) ->
+    (i < length (t_ins (svp_tx p)))%nat -> s <> None ->
     forall site, VSig v p i inp s <> VPanic site.
   Proof.
-    intros Hi Hg (pub & sg & -> & Hpk) site. unfold vs_validate_sig. cbn [svg_pub svg_sig vs_opt].
-    destruct (vs_pub_missing v _); [discriminate|].
-    destruct (rev sg) as [|last rder] eqn:Er; [discriminate|].
+    intros Hi Hs site. unfold vs_validate_sig. destruct s as [s|]; [|congruence].
+    destruct (vs_pub_missing v s); [discriminate|].
+    destruct (rev (svg_sig s)) as [|last rder]; [discriminate|].
     destruct (HS v p i inp (n8 last)) as [[d scr]| |st] eqn:Eh; cbn [vbind]; try discriminate.
-    - cbn [fst snd]. unfold vs_verify_script. destruct (parse_pk pub) as [ck|]; [|congruence].
-      destruct (vs_disasm scr); cbn [vbind]; [|discriminate].
+    - cbn [fst snd]. unfold vs_verify_script. destruct (parse_pk _) as [ck|]; cbn [vbind]; [|discriminate].
+      destruct (vs_script_tokens scr); cbn [vbind]; [|discriminate].
       destruct (negb _); [discriminate|]. destruct (negb _); discriminate.
-    - exfalso. exact (hash_and_script_no_panic v p i inp (n8 last) Hi Hg st Eh).
+    - exfalso. exact (hash_and_script_no_panic v p i inp (n8 last) Hi st Eh).
   Qed.
 
   Lemma validate_sigs_no_panic v p i inp sigs :
@@ -545,17 +739,17 @@ Section Spec.
     - exfalso. exact (H s0 (or_introl eq_refl) st E).
   Qed.
 
-  (* PARTIAL (no_panic_partial): accepted packets whose input i satisfies panic_guards never panic *)
-  Theorem no_panic_partial v p i :
+  (* no_panic_on_accepted_packets, in full: after fixes a910e27 and 1acccfe no expression
+     reachable from a parser-shaped packet and an input index within range can panic *)
+  Theorem no_panic_on_accepted_packets v p i :
     accepted p -> (i < length (svp_ins p))%nat ->
-    (forall inp, nth_error (svp_ins p) i = Some inp -> panic_guards v p i inp) ->
     forall site, VI v p i <> VPanic site.
   Proof.
-    intros [Hlen Hsig] Hi Hg site. unfold vs_validate_input.
+    intros [Hlen Hsig] Hi site. unfold vs_validate_input.
     destruct (nth_error (svp_ins p) i) as [inp|] eqn:En.
     - destruct (svi_sigs inp) as [|s0 r] eqn:Es; [discriminate|]. rewrite <- Es.
       apply validate_sigs_no_panic. intros s Hin.
-      apply validate_sig_no_panic; [lia | apply Hg; reflexivity |].
+      apply validate_sig_no_panic; [lia|].
       apply (Hsig inp); [eapply nth_error_In; exact En | exact Hin].
     - apply nth_error_None in En. lia.
   Qed.
@@ -675,13 +869,6 @@ Proof.
   rewrite Hn in Hn'. injection Hn' as <-. exact (Hng (Hg s Hin)).
 Qed.
 
-(* the key test is a substring test on the hex disassembly: a match at an odd hex offset
-   is accepted although the key bytes occur nowhere in the script *)
-Theorem key_hex_match_not_bytewise :
-  exists script asm ck, vs_disasm script = Some asm /\
-    vs_is_infix (to_hex ck) asm = true /\ vs_is_infix ck script = false.
-Proof. exists [x02; x10; x12], (to_hex [x10; x12]), [x01]. vm_compute. repeat split. Qed.
-
 (* the hypotheses of valid_only_if_partial are satisfiable: an honest P2WPKH input with
    both utxo records (valid, well-formed program), and a P2SH-wrapped multisig-like input *)
 Definition pkt0 : vpacket := Eval vm_compute in
@@ -716,36 +903,36 @@ Proof. vm_compute. split; reflexivity. Qed.
 Example toy_signed_only : forall k m m' s, toy_signed k m s -> toy_signed k m' s -> m = m'.
 Proof. unfold toy_signed. intros k m m' s -> H. apply app_inv_head in H. exact H. Qed.
 
-(* ---------- panics on accepted packets ---------- *)
+(* the hypotheses of valid_only_if are satisfiable: 33-byte keys, 20-byte hashes, a valid pay-to-pubkey input *)
+Definition toy33_parse (pub : bytes) : option bytes := if (length pub =? 33)%nat then Some pub else None.
+Definition toy20_hash (_ : bytes) : bytes := repeat x00 20.
+Definition kL : bytes := repeat x02 33.
+Definition spkL : bytes := [x21] ++ kL ++ [xac].               (* <33-byte key> OP_CHECKSIG *)
+Definition prevL : tx := Eval vm_compute in tx_of [in_of [] 0] [out_of spkL [x01]].
+Definition idL : bytes := Eval vm_compute in txid prevL.
+Definition pktL : vpacket := Eval vm_compute in
+  mk_vpacket (tx_of [in_of idL 0] [out_of [] [x01]])
+    [mk_vinput (Some prevL) None None None
+       [Some (mk_vsig (Some kL) (toy_sig kL (toy_digest VLegacy (tx_of [] []) 0 spkL [] 1) 1))] idL 0].
+Example valid_only_if_hypotheses_hold :
+  (forall pub ck, toy33_parse pub = Some ck -> length ck = 33%nat) /\
+  (forall b, length (toy20_hash b) = 20%nat) /\
+  vs_validate_input toy_digest toy33_parse toy_der_ok toy_verify toy20_hash VsV0 pktL 0 = VOk true /\
+  vs_validate_input toy_digest toy33_parse toy_der_ok toy_verify toy20_hash VsV2 pktL 0 = VOk true.
+Proof.
+  split.
+  - unfold toy33_parse. intros pub ck H. destruct (Nat.eqb_spec (length pub) 33); [|discriminate].
+    injection H as <-. assumption.
+  - split; [intro b; reflexivity|]. vm_compute. split; reflexivity.
+Qed.
+
+(* ---------- former panics ---------- *)
 (* an empty script / the one-byte script OP_0 in the witness-utxo record *)
 Definition pkt7 (s : bytes) : vpacket :=
   mk_vpacket (tx_of [in_of [] 0] [])
     [mk_vinput None (Some (out_of s [x01])) None None [Some (mk_vsig (Some kA) [x01])] [] 0].
 
-Lemma toy_accepted_single t inp pub sg :
-  svi_sigs inp = [Some (mk_vsig (Some pub) sg)] -> length (t_ins t) = 1%nat ->
-  accepted toy_parse_pk (mk_vpacket t [inp]).
-Proof.
-  intros Hs Hl. split; [exact Hl|]. intros inp' [<-|[]] s Hin. rewrite Hs in Hin.
-  destruct Hin as [<-|[]]. exists pub, sg. split; [reflexivity | discriminate].
-Qed.
-
-Theorem no_panic_refuted :
-  (accepted toy_parse_pk (pkt7 []) /\ TVI VsV0 (pkt7 []) 0 = VPanic VPScriptEmpty /\ TVI VsV2 (pkt7 []) 0 = VPanic VPScriptEmpty) /\
-  (accepted toy_parse_pk (pkt7 [x00]) /\ TVI VsV0 (pkt7 [x00]) 0 = VPanic VPScriptShort /\ TVI VsV2 (pkt7 [x00]) 0 = VPanic VPScriptShort).
-Proof.
-  repeat split; try (vm_compute; reflexivity);
-    (eapply toy_accepted_single; [reflexivity | reflexivity]).
-Qed.
-
-Theorem no_panic_statement_refuted :
-  ~ no_panic_statement toy_digest toy_parse_pk toy_der_ok toy_verify toy_hash160.
-Proof.
-  intro H. destruct no_panic_refuted as [[Ha [Hp _]] _].
-  apply (H VsV0 (pkt7 []) 0%nat Ha) with (site := VPScriptEmpty); [vm_compute; lia | exact Hp].
-Qed.
-
-(* the panics repaired by a910e27 are errors now *)
+(* the panics repaired by a910e27 and 1acccfe are errors now *)
 Definition pkt5 : vpacket := Eval vm_compute in
   mk_vpacket (tx_of [in_of idB 1] [])
     [mk_vinput (Some prevB) None None None [Some (mk_vsig (Some kA) [x01])] idB 1].
@@ -756,7 +943,9 @@ Example former_panics_are_errors :
   TVI VsV0 pkt5 0 = VErr /\ TVI VsV2 pkt5 0 = VErr /\                  (* outpoint index past the outputs *)
   TVI VsV0 pkt6 0 = VOk false /\ TVI VsV2 pkt6 0 = VOk false /\        (* P2WPKH described by the previous transaction only *)
   TVI VsV2 (mk_vpacket (tx_of [in_of [] 0] []) [mk_vinput None None None None [Some (mk_vsig (Some kA) [])] [] 0]) 0
-    = VErr.                                                            (* empty signature *)
+    = VErr /\                                                          (* empty signature *)
+  TVI VsV0 (pkt7 []) 0 = VErr /\ TVI VsV2 (pkt7 []) 0 = VErr /\         (* empty spent script *)
+  TVI VsV0 (pkt7 [x00]) 0 = VErr /\ TVI VsV2 (pkt7 [x00]) 0 = VErr.     (* one-byte script OP_0 *)
 Proof. vm_compute. repeat split. Qed.
 
 (* outside the parsers' guarantees: a nil signature element, an index past the inputs (hand-built packets only) *)
@@ -765,14 +954,11 @@ Example panic_on_unparsed :
   TVI VsV0 (mk_vpacket (tx_of [] []) []) 0 = VPanic VPInputIndex.
 Proof. vm_compute. repeat split. Qed.
 
-(* the guards of no_panic_partial are satisfiable *)
-Example no_panic_guards_hold :
-  accepted toy_parse_pk pkt0 /\ forall inp, nth_error (svp_ins pkt0) 0 = Some inp -> panic_guards VsV2 pkt0 0 inp.
+(* the hypotheses of no_panic_on_accepted_packets are satisfiable *)
+Example accepted_example : accepted pkt0 /\ (0 < length (svp_ins pkt0))%nat.
 Proof.
-  split.
-  - eapply toy_accepted_single; [reflexivity | reflexivity].
-  - intros inp Hn. vm_compute in Hn. injection Hn as <-. intros o Ho. vm_compute in Ho. injection Ho as <-.
-    split; [vm_compute; discriminate|]. intros a Ha. vm_compute in Ha. discriminate.
+  split; [|vm_compute; lia]. split; [reflexivity|].
+  intros inp [<-|[]] s [<-|[]]. discriminate.
 Qed.
 
 (* ---------- ValidateAllSignatures ---------- *)
@@ -826,8 +1012,7 @@ Section Fields.
       destruct (negb _); [discriminate|]. destruct (_ <=? _); [discriminate|].
       destruct (nth_error _ _) as [o|]; [|discriminate].
       apply vbind_ok in H as [script [_ H]].
-      apply vbind_ok in H as [ty [_ H]].
-      destruct ty.
+      destruct (vs_script_type script).
       + apply vbind_ok in H as [d0 [Hd H]]. injection H as <- <-.
         apply (digest_v0_ok digest) in Hd. eexists; eexists; eexists; exact Hd.
       + destruct (svi_witscript inp) as [ws|]; [|discriminate].
@@ -840,8 +1025,7 @@ Section Fields.
       + injection H as <- <-. eexists; eexists; eexists; reflexivity.
     - destruct (svi_wit inp) as [w|]; [|discriminate].
       apply vbind_ok in H as [script [_ H]].
-      apply vbind_ok in H as [ty [_ H]].
-      destruct ty; try discriminate.
+      destruct (vs_script_type script); try discriminate.
       + apply vbind_ok in H as [d0 [Hd H]]. injection H as <- <-.
         apply (digest_v0_ok digest) in Hd. eexists; eexists; eexists; exact Hd.
       + destruct (negb _); [discriminate|].
